@@ -743,8 +743,13 @@ class PEP(object):
                     message += " up to an error of {}".format(-lmi_dual_min_eig_val)
                 print(message)
             # - <psd_matrix, lmi_dual> <= 0
+            # The entries of the constrained matrix are combined with the dual values of their correspondences
+            # (these are the entries of the dual matrix when the matrix of expressions is symmetric as written).
             for psd_matrix in self._list_of_psd_sent_to_wrapper:
-                constraints_combination -= np.sum(psd_matrix.eval_dual() * psd_matrix.matrix_of_expressions)
+                entries_dual = psd_matrix.entries_dual_variable_value
+                if entries_dual is None:
+                    entries_dual = psd_matrix.eval_dual()
+                constraints_combination -= np.sum(entries_dual * psd_matrix.matrix_of_expressions)
 
         # Scalar constraints
         # Dual of inequality constraints >= 0
